@@ -147,12 +147,13 @@ class IterationUnderMutation(Suite):
     def bound(self, tier):
         return ("Memory store, 2 graphs (the first context ever used, and another), start content = every subset "
                 "pattern of 3 triples per graph (8x8), every pattern shape (24), one mutation (add/remove of each of "
-                "6 triples or remove-all, in either graph) inserted after k = 1..3 next() calls"
+                "8 triples (two with a predicate new to the store) or remove-all, in either graph) inserted after k = 1..3 next() calls"
                 + ("" if tier == "quick" else "; thorough: two mutations"))
 
     def enumerate(self, tier):
         T = list(range(3))
-        muts = [("add", g, i) for g in (0, 1) for i in range(6)] + [("remove", g, i) for g in (0, 1) for i in range(6)] \
+        # triples 6 and 7 use a predicate no stored triple has (new keys in the second index level)
+        muts = [("add", g, i) for g in (0, 1) for i in range(8)] + [("remove", g, i) for g in (0, 1) for i in range(6)] \
             + [("clear", g, 0) for g in (0, 1)]
         for a in range(8):
             for b in range(8):
@@ -168,6 +169,7 @@ class IterationUnderMutation(Suite):
     def check(self, case):
         from rdflib import Graph, URIRef
         T = all_triples()
+        T = T + [(T[0][0], URIRef("urn:p2"), T[0][2]), (T[3][0], URIRef("urn:p2"), T[1][2])]
         PATS = all_patterns()
         first = Graph(identifier=URIRef("urn:first"))
         gs = [first, Graph(store=first.store, identifier=URIRef("urn:second"))]
